@@ -21,7 +21,7 @@ RULE = ("L1: random + threshold-hitting arguments over all 37 crops and random p
 def suites(ctx):
     n = 12000 if ctx["tier"] == "quick" else 240000
     out = [l1.run_suite("kernels", kernels.gen, n)]
-    out.append(l1.run_suite("fco2_init", fco2_suite.gen, 111 if ctx["tier"] == "quick" else 740))
+    out.append(l1.run_suite("fco2_init", fco2_suite.gen, 222 if ctx["tier"] == "quick" else 1480))
     return out
 
 
